@@ -235,9 +235,7 @@ func (f *Frame) loopEffects(li *loopInfo) {
 				f.allocEffects(x.(ssa.Value), li.fams)
 			case ssa.CallInstruction:
 				P.callEffect(f.e.U, tmp, x, f.fn, callees)
-				if localClosure(x.Common().Value) != nil || f.findClosure(x.Common().Value) != nil {
-					li.privAll = true
-				}
+				f.closureWriteEffects(x.Common().Value, li)
 			}
 		}
 	}
@@ -391,6 +389,7 @@ func (f *Frame) typeFacts(t Term, typ types.Type, st *State) {
 			implies(eq(slBase(t), intLit(0)), eq(slCap(t), intLit(0)))), t.S)
 		if st != nil {
 			e.assume(le(slBase(t), st.alloc), t.S)
+			f.valueInvariant(t, typ, st)
 		}
 	case SInt:
 		if b, ok := typ.Underlying().(*types.Basic); ok && b.Info()&types.IsInteger != 0 {
@@ -1179,4 +1178,119 @@ func (f *Frame) isFault(kind string) bool {
 		}
 	}
 	return false
+}
+
+// valueInvariant assumes the declared invariant of a named non-struct type
+// (e.g. ast.List: len(self) >= 1) on a value of that type.
+func (f *Frame) valueInvariant(t Term, typ types.Type, st *State) {
+	e := f.e
+	n, ok := typ.(*types.Named)
+	if !ok || n.Obj().Pkg() == nil || f.noInv {
+		return
+	}
+	key := n.Obj().Pkg().Name() + "." + n.Obj().Name()
+	invs := e.P.Specs.TypeInvs[key]
+	if len(invs) == 0 {
+		return
+	}
+	f.noInv = true
+	defer func() { f.noInv = false }()
+	for _, inv := range invs {
+		env := &SpecEnv{f: f, names: map[string]Term{"self": t}, types: map[string]types.Type{"self": typ}, cur: st, old: st, pkg: n.Obj().Pkg()}
+		b, err := env.evalBool(inv.Expr)
+		if err != nil {
+			e.specError("wf %s: %q: %v", key, inv.Text, err)
+			continue
+		}
+		e.assume(b, t.S)
+		e.usedInvs[key] = true
+	}
+}
+
+// closureWriteEffects: a closure called in a loop may assign captured
+// locals of this frame; those private state variables are loop-modified.
+func (f *Frame) closureWriteEffects(v ssa.Value, li *loopInfo) {
+	var mc *ssa.MakeClosure
+	switch x := v.(type) {
+	case *ssa.MakeClosure:
+		mc = x
+	default:
+		// a closure stored in a local: find its MakeClosure through the frame
+		for fr := f; fr != nil; fr = fr.parent {
+			for val := range fr.closures {
+				if val == v {
+					mc, _ = val.(*ssa.MakeClosure)
+				}
+			}
+		}
+		if mc == nil {
+			// called through a variable holding a closure we cannot resolve statically
+			if _, isFn := v.(*ssa.Function); !isFn {
+				if _, isBuiltin := v.(*ssa.Builtin); !isBuiltin {
+					if _, ok := v.Type().Underlying().(*types.Signature); ok && !isGlobalFuncValue(v) {
+						li.privAll = true
+					}
+				}
+			}
+			return
+		}
+	}
+	fn := mc.Fn.(*ssa.Function)
+	written := freeVarWrites(fn, map[*ssa.Function]bool{})
+	for i, b := range mc.Bindings {
+		if i >= len(fn.FreeVars) || !written[fn.FreeVars[i]] {
+			continue
+		}
+		a, ok := b.(*ssa.Alloc)
+		if !ok || !f.privateAlloc(a) {
+			continue
+		}
+		et := a.Type().Underlying().(*types.Pointer).Elem()
+		base := "L." + f.pfx + sanitize(f.fn.Name()) + "." + a.Name()
+		if stt, ok := et.Underlying().(*types.Struct); ok {
+			for j := 0; j < stt.NumFields(); j++ {
+				li.fams[base+"."+sanitize(stt.Field(j).Name())] = f.e.structFieldSort(et, j)
+			}
+		} else {
+			li.fams[base] = f.e.U.sortOf(et, false)
+		}
+	}
+}
+
+func isGlobalFuncValue(v ssa.Value) bool {
+	_, ok := v.(*ssa.Function)
+	return ok
+}
+
+// freeVarWrites: the free variables a closure (or a closure nested in it,
+// through the same capture) stores to.
+func freeVarWrites(fn *ssa.Function, seen map[*ssa.Function]bool) map[*ssa.FreeVar]bool {
+	out := map[*ssa.FreeVar]bool{}
+	if seen[fn] {
+		return out
+	}
+	seen[fn] = true
+	for _, b := range fn.Blocks {
+		for _, in := range b.Instrs {
+			switch x := in.(type) {
+			case *ssa.Store:
+				addr := x.Addr
+				if fa, ok := addr.(*ssa.FieldAddr); ok {
+					addr = fa.X
+				}
+				if fv, ok := addr.(*ssa.FreeVar); ok {
+					out[fv] = true
+				}
+			case *ssa.MakeClosure:
+				inner := x.Fn.(*ssa.Function)
+				w := freeVarWrites(inner, seen)
+				for i, bnd := range x.Bindings {
+					if fv, ok := bnd.(*ssa.FreeVar); ok && i < len(inner.FreeVars) && w[inner.FreeVars[i]] {
+						out[fv] = true
+					}
+				}
+			}
+		}
+	}
+	return out
 }
